@@ -954,7 +954,11 @@ def shards_delta(shards, other_shards):
     other_shards_iter = iter(other_shards)
     other_num_rows = other_cviews = None
     done = other_done = 0
+    full_cols = None
     for num_rows, cviews in shards:
+        if full_cols is None:
+            # the first shard spans the whole width
+            full_cols = sum(cv[2] for cv in cviews)
         if other_num_rows is None:
             other_num_rows, other_cviews = next(other_shards_iter, (None, None))
         while other_num_rows is not None and other_done < done:
@@ -965,8 +969,13 @@ def shards_delta(shards, other_shards):
             yield (num_rows, cviews)
             done += num_rows
             continue
-        # top-aligned shards, compare each cview
-        yield (num_rows, shard_cviews_delta(cviews, other_cviews))
+        if sum(cv[2] for cv in cviews) == full_cols == sum(cv[2] for cv in other_cviews):
+            # top-aligned shards, compare each cview
+            yield (num_rows, shard_cviews_delta(cviews, other_cviews))
+        else:
+            # canvases continuing from the shards above occupy some of the columns: where the cviews
+            # of these two shards start is not known here, so they cannot be matched up by position
+            yield (num_rows, cviews)
         other_done += other_num_rows
         other_num_rows = None
         done += num_rows
